@@ -3,7 +3,7 @@
    names (valid_name), arbitrary value lines without LF/CR, every placement of comments and
    blank lines, every indentation and colon spacing, optional final newline. *)
 From V.model Require Import Base Deb822Lex Deb822Parse Grammar.
-From V.proofs Require Import GrammarLexP GrammarParseP GrammarAccP.
+From V.proofs Require Import GrammarLexP GrammarParseP GrammarAccP RejectP.
 
 (* acceptance + exact content, for every well-formed document *)
 Theorem C03_accept : forall d : doc, wf_doc d = true ->
@@ -41,25 +41,25 @@ Check C03_first_paragraph : forall d : doc, wf_doc d = true ->
   paragraph_from_str (render d) = match paragraphs (tree_of d) with p :: _ => Ok p | [] => Err 2%N end.
 Print Assumptions C03_first_paragraph.
 
-(* The rejection clause ("a line that is neither field, continuation, comment nor blank makes
-   the strict reader fail") is stated here in full; it is NOT proved in Coq yet.  It is decided
-   on every run by the correspondence + oracle stream deb822-reject (every single-line
-   corruption of generated well-formed documents, at every line boundary). *)
-Definition bad_line (l : str) : bool :=
-  no_eol l &&
-  match l with
-  | [] => false
-  | c :: _ =>
-      negb (is_indent c) && negb (c =? 35)%N &&
-      (negb (is_valid_initial_key_char c)                       (* cannot start a field name *)
-       || negb (existsb (fun x => (x =? 58)%N) l))               (* a name but no colon *)
-  end.
-Definition C03_reject_full : Prop :=
-  forall (d : doc) (pre post : str) (l : str),
-    wf_doc d = true -> render d = pre ++ post ->
-    (pre = [] \/ exists p, pre = p ++ [LF]) ->               (* a line boundary *)
-    bad_line l = true ->
-    exists e, from_str (pre ++ l ++ [LF] ++ post) = Err e.
+(* The rejection clause: a line that is neither a field (a name followed by a colon), a
+   continuation (it does not start with space or tab), a comment (it does not start with '#')
+   nor blank makes the strict reader fail — when inserted at ANY line boundary of ANY text, in
+   particular of any well-formed document (render d = pre ++ post). *)
+Theorem C03_reject : forall (pre post l : str),
+  (pre = [] \/ exists p, pre = p ++ [LF]) ->       (* a line boundary *)
+  bad_line l = true ->
+  from_str (pre ++ l ++ [LF] ++ post) = Err 1%N.
+Proof. exact C03_reject_all. Qed.
+Check C03_reject : forall (pre post l : str),
+  (pre = [] \/ exists p, pre = p ++ [LF]) ->
+  bad_line l = true ->
+  from_str (pre ++ l ++ [LF] ++ post) = Err 1%N.
+Print Assumptions C03_reject.
+Example C03_ex_bad_lines :
+  bad_line [45; 120]%N = true /\ bad_line [102; 111; 111; 32; 98]%N = true /\       (* "-x", "foo b" *)
+  bad_line [58; 97]%N = true /\ bad_line [233]%N = true /\                          (* ":a", U+00E9 *)
+  bad_line [65; 58; 32; 98]%N = false /\ bad_line [32; 120]%N = false /\ bad_line [35; 99]%N = false.
+Proof. vm_compute. repeat split. Qed.
 
 (* Non-vacuity: a document using every layout knob is well-formed. *)
 Example C03_ex_wf :
